@@ -601,6 +601,7 @@ def id_ops_many(st):
     def menus(xs, unknown):
         out = [[x] for x in xs] + [[unknown], list(xs), xs[::2], xs[1::2], [xs[0], xs[-1]], [xs[-1], xs[0]]]
         out += [[unknown] + m for m in (list(xs), xs[::2], [xs[len(xs) // 2]])]
+        out += [[xs[0], xs[0]], [xs[0], xs[-1], xs[0]]]  # an identifier listed twice names its member once
         return out
 
     for m in menus(cids, "?"):
@@ -622,11 +623,15 @@ def id_ops(st):
             yield {"q": "guids", "ids": ["?"] + [x for x in s if x != "?"]}  # the unknown one FIRST as well as last
         if len(s) == 1:
             yield {"q": "guids", "ids": s, "bare": True}
+        if 1 <= len(s) <= 2 and "?" not in s:
+            yield {"q": "guids", "ids": s + s[:1]}  # an identifier listed twice names its member once
     idents = sorted({c["id"] for c in ch} | {c["name"] for c in ch if c["name"]})
     for s in subsets(idents + [UNKNOWN_IDENT]):
         yield {"q": "identifiers", "ids": s}
         if len(s) == 1:
             yield {"q": "identifiers", "ids": s, "bare": True}
+        if 1 <= len(s) <= 2 and UNKNOWN_IDENT not in s:
+            yield {"q": "identifiers", "ids": s + s[:1]}
     gids = [g["id"] for c in ch for g in c["gc"]]
     for s in subsets(gids + ["?"]):
         for q in ("interval_guids", "tx_guids", "feat_guids"):
@@ -638,6 +643,8 @@ def id_ops(st):
                     yield {"q": q, "ids": rest[:1] + ["?"] + rest[1:]}
             if len(s) == 1:
                 yield {"q": q, "ids": s, "bare": True}
+            if 1 <= len(s) <= 2 and "?" not in s:
+                yield {"q": q, "ids": s + s[:1]}
 
 
 def d2_first_level(st, spec):
